@@ -21,7 +21,7 @@ ID = 'C17'
 LEVEL = 'model_checking'
 
 TAB = {'C': F.CASE, 'I': F.IGNORECASE, 'W': F.FORCEWIN, 'U': F.FORCEUNIX, 'E': F.EXTMATCH, 'D': F.DOTMATCH,
-       'G': G.GLOBSTAR, 'X': G.MATCHBASE, 'Z': G.NODOTDIR, 'S': F.SPLIT}
+       'G': G.GLOBSTAR, 'X': G.MATCHBASE, 'Z': G.NODOTDIR, 'S': F.SPLIT, 'O': G.NODIR}
 
 
 def flags_of(fs):
@@ -328,7 +328,7 @@ def plan(tier, seed):
     chunks = []
     NS = 48
     if tier == 'quick':
-        spec = [('fn', [1, 2, 3], ['E', 'DE'], 1), ('glob', [1, 2], ['GE', 'GDE', 'GXE'], 1), ('glob', [3], ['GE', 'GDE'], 1)]
+        spec = [('fn', [1, 2, 3], ['E', 'DE'], 1), ('glob', [1, 2], ['GE', 'GDE', 'GXE', 'GEO'], 1), ('glob', [3], ['GE', 'GDE'], 1)]
     else:
         spec = [('fn', [1, 2, 3], ['E', 'DE', ''], 2), ('fn', [4], ['E'], 1), ('glob', [1, 2, 3], ['GE', 'GDE', 'GXE', 'GZE'], 1),
                 ('glob', [4], ['GDE'], 1)]
